@@ -18,6 +18,10 @@ Clauses decided (HND + OWN):
   C03-SWALLOW  every handler that can catch a LiquidError and neither re-raises nor
                routes it to a dispatcher is a reviewed row (reason recorded); a new
                silent swallow is a violation (it would hide an error from warn mode).
+  C03-FORMAT   warn mode formats every error it suppresses (``warnings.warn(str(exc))``): the
+               formatter must not raise for a token of the lexer — ``_error_context`` adds up
+               ``splitlines(keepends=True)`` lengths (rule shared with C20-ERR); otherwise a
+               multi-line template whose error sits near its end raises in warn mode.
   C03-ESCAPE   (via the EXC engine, when available) no LiquidError raise site reachable
                from parsing/rendering escapes the routing handlers in lax mode.
 
@@ -70,7 +74,7 @@ def _is_strict_cmp(node: ast.AST, env_like) -> bool:
 
 def run(repo: Repo) -> Result:
     res = Result(PID)
-    res.rules = ["C03-ROUTE", "C03-DISPATCH", "C03-MODE", "C03-SWALLOW"]
+    res.rules = ["C03-ROUTE", "C03-DISPATCH", "C03-MODE", "C03-SWALLOW", "C03-FORMAT"]
     res.explanation = (
         "error-routing shape (every failing construct wrapped by a LiquidError handler that "
         "calls Environment.error), dispatcher shape (raise iff STRICT, warn iff WARN), and a "
@@ -456,6 +460,9 @@ def run(repo: Repo) -> Result:
     if n_h < 15:
         raise AnchorMissing(f"only {n_h} LiquidError-family handlers found")
     res.stats.update(mode_reads=n_reads, liquid_handlers=n_h, tag_classes=n_tags)
+    from .c20 import check_error_context
+
+    check_error_context(repo, res, "C03-FORMAT")
     return res
 
 
@@ -480,7 +487,7 @@ def selftest(repo: Repo):
         v("env-error-warns-in-lax", ENV, "        if self.mode == Mode.WARN:\n            warnings.warn(", "        if self.mode != Mode.STRICT:\n            warnings.warn(", "C03-DISPATCH|liquid.environment.Environment.error"),
         v("ctx-error-always-raises", CTX, "        if self.env.mode == Mode.STRICT:\n            raise exc\n", "        if True:\n            raise exc\n", "C03-DISPATCH|liquid.context.RenderContext.error"),
         v("lax-only-behaviour", "liquid/builtin/expressions/arguments.py", "                if env.mode == Mode.STRICT and tokens.current.kind == TOKEN_WORD:\n                    raise LiquidSyntaxError(", "                if env.mode == Mode.LAX and tokens.current.kind == TOKEN_WORD:\n                    next(tokens)\n                if env.mode == Mode.STRICT and tokens.current.kind == TOKEN_WORD:\n                    raise LiquidSyntaxError(", "C03-MODE"),
-        v("strict-guard-with-else", "liquid/builtin/expressions/loop.py", "                if env.mode == Mode.STRICT and tokens.peek.kind == TOKEN_COMMA:\n                    raise LiquidSyntaxError(\n                        f\"expected 'reversed', 'offset' or 'limit', found {kind}\",\n                        token=tokens.peek,\n                    )\n", "                if env.mode == Mode.STRICT and tokens.peek.kind == TOKEN_COMMA:\n                    raise LiquidSyntaxError(\n                        f\"expected 'reversed', 'offset' or 'limit', found {kind}\",\n                        token=tokens.peek,\n                    )\n                else:\n                    reversed_ = False\n", "C03-MODE"),
+        lambda: Variant("strict-guard-with-mode-independent-else-is-silent", text_edit(repo, "liquid/builtin/expressions/loop.py", "                if env.mode == Mode.STRICT and tokens.peek.kind == TOKEN_COMMA:\n                    raise LiquidSyntaxError(\n                        f\"expected 'reversed', 'offset' or 'limit', found {kind}\",\n                        token=tokens.peek,\n                    )\n", "                if env.mode == Mode.STRICT and tokens.peek.kind == TOKEN_COMMA:\n                    raise LiquidSyntaxError(\n                        f\"expected 'reversed', 'offset' or 'limit', found {kind}\",\n                        token=tokens.peek,\n                    )\n                else:\n                    reversed_ = False\n", 1), "", silent=True),  # the else arm runs exactly when the guard does not raise: same behaviour in every mode
         v("new-silent-swallow", "liquid/builtin/output.py", "        return buffer.write(\n            to_liquid_string(self.expression.evaluate(context), context.autoescape)\n        )", "        try:\n            return buffer.write(\n                to_liquid_string(self.expression.evaluate(context), context.autoescape)\n            )\n        except LiquidError:\n            return 0", "C03-SWALLOW"),
         v("tag-mode-from-env", "liquid/builtin/tags/if_tag.py", "        token = stream.eat(TOKEN_TAG)\n        tokens = stream.into_inner(tag=token)\n        condition = BooleanExpression.parse(self.env, tokens)", "        token = stream.eat(TOKEN_TAG)\n        self.mode = self.env.mode\n        tokens = stream.into_inner(tag=token)\n        condition = BooleanExpression.parse(self.env, tokens)", "C03-MODE"),
         v("tag-overrides-get_node", "liquid/builtin/tags/echo_tag.py", "    def parse(self, stream: TokenStream) -> Node:  # noqa: D102", "    def get_node(self, stream):\n        return self.parse(stream)\n\n    def parse(self, stream: TokenStream) -> Node:  # noqa: D102", "overrides-get_node"),
